@@ -18,7 +18,7 @@ mkdir -p "$S/repo"; (cd "$REPO" && tar --exclude=.git -cf - .) | tar -xf - -C "$
 (cd "$V/tools/instrument" && go build -o "$S/instrument" . && "$S/instrument" "$S/repo" >/dev/null) || exit 2
 sed "s#=> /repo#=> $S/repo#" "$V/sim/go.mod" >"$S/conc.mod"; cp "$V/sim/go.sum" "$S/conc.sum"
 (cd "$V/sim" && go build -modfile="$S/conc.mod" -tags concsim -o "$S/conc" .) || exit 2
-(cd "$V/sim" && go test -count=1 -run "TestBrowserModelPieces|TestProtocolTable|TestCacheModelPieces|TestFlattenReference" . >"$S/models.log" 2>&1) || { echo "selftest: the trusted models disagree with their hand-written table"; cat "$S/models.log"; exit 2; }
+(cd "$V/sim" && go test -count=1 -run "TestBrowserModelPieces|TestProtocolTable|TestCacheModelPieces|TestFlattenReference|TestPreflightCacheModel" . >"$S/models.log" 2>&1) || { echo "selftest: the trusted models disagree with their hand-written table"; cat "$S/models.log"; exit 2; }
 echo "selftest: browser / permits / cache / flatten models agree with their hand-written tables"
 rc=0
 for id in $ids; do
